@@ -42,8 +42,13 @@ def older_version(r, entries, base_from, base_to):
                 n["seed"] = r.randrange(1, 1 << 30)
                 n["size"] = r.choice([0, 1, e["size"], e["size"] + 100, max(0, e["size"] - 1), 5000])
         elif n["k"] == "l":
-            if r.random() < 0.5:
+            x = r.random()
+            if x < 0.4:
                 n["target"] = "old/" + n["target"]
+            elif x < 0.7:
+                # the same place, spelled differently: the text is not identical
+                t = n["target"]
+                n["target"] = r.choice([t + "/", t + "/.", t.replace("/", "//", 1) if "/" in t else t + "//", t.replace("/", "/./", 1) if "/" in t else t + "/./"])
         pre.append(n)
     # now and then the older version had another kind of entry at a path (the run may refuse; exit 0 must still mean a mirror)
     for n in pre:
@@ -150,7 +155,8 @@ def gen_cases(tier, seed):
                 for s, shape in zip(sources, shapes):
                     if shape in ("linkfile", "linkdir"):
                         if r.random() < 0.5:
-                            pre.append({"p": "dst/" + os.path.basename(s) if flag != "-T" else "dst", "k": "l", "target": "stale-target"})
+                            cur = [e["target"] for e in spec if e["p"] == s][0]
+                            pre.append({"p": "dst/" + os.path.basename(s) if flag != "-T" else "dst", "k": "l", "target": r.choice(["stale-target", cur + "/", cur + "/.", cur + "//"])})
                         continue
                     if flag == "-T":
                         if shape in ("tree", "deep", "emptydir"):
